@@ -1,6 +1,7 @@
 package main
 
 import (
+	"crypto/sha256"
 	"encoding/hex"
 	"encoding/json"
 	"fmt"
@@ -14,11 +15,12 @@ import (
 
 // rules is the script of the backend for one case: a pure function of the frame.
 type rules struct {
-	byKey    map[string]proxykit.Reply // method + "\x00" + compact params
-	count    map[string]proxykit.Reply // eth_getTransactionCount by address parameter ("0x…" lower case)
-	countDef proxykit.Reply
-	rawMenu  []proxykit.Reply // eth_sendRawTransaction: by byte sum of the parameter
-	def      proxykit.Reply
+	rawUnique bool                      // eth_sendRawTransaction answered with a result that is a function of the payload alone (SHA-256), so the caller's reply identifies the frame
+	byKey     map[string]proxykit.Reply // method + "\x00" + compact params
+	count     map[string]proxykit.Reply // eth_getTransactionCount by address parameter ("0x…" lower case)
+	countDef  proxykit.Reply
+	rawMenu   []proxykit.Reply // eth_sendRawTransaction: by byte sum of the parameter
+	def       proxykit.Reply
 }
 
 func newRules() *rules {
@@ -54,6 +56,9 @@ func (rl *rules) answer(f *proxykit.Frame) proxykit.Reply {
 		}
 		return rl.countDef
 	case "eth_sendRawTransaction":
+		if rl.rawUnique {
+			return result(`"` + rawToken(f.Params) + `"`)
+		}
 		sum := 0
 		if len(f.Params) > 0 {
 			for _, c := range f.Params[0] {
@@ -65,15 +70,44 @@ func (rl *rules) answer(f *proxykit.Frame) proxykit.Reply {
 	return rl.def
 }
 
+func rawToken(params []json.RawMessage) string {
+	h := sha256.New()
+	for _, p := range params {
+		h.Write(p)
+	}
+	return "0x" + hex.EncodeToString(h.Sum(nil))
+}
+
 func result(j string) proxykit.Reply {
 	return proxykit.Reply{Kind: proxykit.ReplyResult, Result: json.RawMessage(j)}
 }
 
 type gen struct {
-	r    *cv.Rand
-	st   *cv.Stats
-	keys []proxykit.Key
-	uniq int
+	r        *cv.Rand
+	st       *cv.Stats
+	keys     []proxykit.Key // signable
+	bad      []badAddr      // listed by eth_accounts, the wallet must refuse to sign (keys.go)
+	uniq     int
+	plainEnv bool // no odd key casing / duplicate members in envelopes (concurrent rounds: frames are attributed by method + params)
+}
+
+// fromSpec forces the `from` of a generated eth_sendTransaction (histories over one address).
+type fromSpec struct {
+	hex   string // 40 lower-case hex digits
+	style int    // 0 "0x"+lower, 1 "0x"+UPPER, 2 no prefix, 3 mixed case
+	tag   string
+	clean bool // everything else well-formed, so that the request reaches the wallet
+	nonce bool // nonce supplied (no eth_getTransactionCount frame)
+}
+
+func mixedCase(h string) string {
+	b := []byte(h)
+	for i := range b {
+		if i%3 == 0 && b[i] >= 'a' && b[i] <= 'f' {
+			b[i] -= 32
+		}
+	}
+	return string(b)
 }
 
 func (g *gen) pick(xs ...string) string { return xs[g.r.Intn(len(xs))] }
@@ -229,7 +263,7 @@ func (g *gen) tag(t ...string) {
 // envelope builds the request object; style 0 plain, 1 odd key casing / duplicates.
 func (g *gen) envelope(id *J, hasID bool, method *J, params *J) *J {
 	o := jobj()
-	odd := g.r.Intn(14) == 0
+	odd := g.r.Intn(14) == 0 && !g.plainEnv
 	kj, ki, km, kp := "jsonrpc", "id", "method", "params"
 	if odd {
 		g.tag("env:odd-key-casing")
@@ -376,14 +410,29 @@ func (g *gen) amount() *big.Int {
 	}
 }
 
-func (g *gen) sendTx(rl *rules, thorough bool) member {
+func (g *gen) sendTx(rl *rules, thorough bool) member { return g.sendTxFrom(rl, thorough, nil) }
+
+func (g *gen) sendTxFrom(rl *rules, thorough bool, force *fromSpec) member {
 	tx := jobj()
 	tags := []string{"member:sendTx"}
 	key := g.keys[g.r.Intn(len(g.keys))]
 	fromHex := hex.EncodeToString(key.Address[:])
-	fromKind := g.r.Intn(20)
+	fromKind := g.r.Intn(24)
+	clean := force != nil && force.clean
 	var from *J
 	switch {
+	case force != nil:
+		fromHex = force.hex
+		from = jstr([]string{"0x" + fromHex, "0x" + strings.ToUpper(fromHex), fromHex, "0x" + mixedCase(fromHex)}[force.style%4])
+		tags = append(tags, force.tag)
+	case fromKind >= 20 && len(g.bad) > 0:
+		b := g.bad[g.r.Intn(len(g.bad))]
+		fromHex = b.hex()
+		from = jstr([]string{"0x" + fromHex, "0x" + fromHex, "0x" + fromHex, "0x" + strings.ToUpper(fromHex), fromHex, "0x" + mixedCase(fromHex)}[g.r.Intn(6)])
+		tags = append(tags, "from:listed-"+b.kind)
+	case fromKind == 19:
+		from = jstr("0x" + mixedCase(fromHex))
+		tags = append(tags, "from:known-mixed-case")
 	case fromKind < 11:
 		from = jstr("0x" + fromHex)
 		tags = append(tags, "from:known")
@@ -421,6 +470,9 @@ func (g *gen) sendTx(rl *rules, thorough bool) member {
 		fs = append(fs, kv{g.pick("from", "from", "from", "From", "FROM"), from})
 	}
 	hasNonce := g.r.Intn(2) == 0
+	if force != nil && force.nonce {
+		hasNonce = true
+	}
 	if hasNonce {
 		n := big.NewInt(int64(g.r.Intn(300)))
 		switch g.r.Intn(6) {
@@ -431,7 +483,7 @@ func (g *gen) sendTx(rl *rules, thorough bool) member {
 		case 2:
 			n = new(big.Int).Lsh(big.NewInt(1), 70)
 		}
-		if g.r.Intn(25) == 0 {
+		if g.r.Intn(25) == 0 && !clean {
 			fs = append(fs, kv{"nonce", []*J{jstr("0xzz"), jstr("-1"), jstr(""), jbool(true), jarr(), jstr("abc")}[g.r.Intn(6)]})
 			tags = append(tags, "nonce:malformed")
 		} else {
@@ -478,7 +530,7 @@ func (g *gen) sendTx(rl *rules, thorough bool) member {
 		fs = append(fs, kv{"to", jnull()})
 		tags = append(tags, "to:null-creation")
 	case 2:
-		if g.r.Intn(3) == 0 {
+		if g.r.Intn(3) == 0 && !clean {
 			fs = append(fs, kv{"to", []*J{jstr("0x12"), jstr(""), jnum("5"), jstr("0x" + strings.Repeat("0", 41))}[g.r.Intn(4)]})
 			tags = append(tags, "to:malformed")
 		} else {
@@ -499,7 +551,7 @@ func (g *gen) sendTx(rl *rules, thorough bool) member {
 		fs = append(fs, kv{"data", jnull()})
 		tags = append(tags, "data:null")
 	case 2:
-		if g.r.Bool() {
+		if g.r.Bool() || clean {
 			fs = append(fs, kv{"data", jstr("0x")})
 			tags = append(tags, "data:0x")
 		} else {
@@ -540,7 +592,11 @@ func (g *gen) sendTx(rl *rules, thorough bool) member {
 		tx.set(f.k, f.v)
 	}
 	var params *J
-	switch g.r.Intn(16) {
+	pk := g.r.Intn(16)
+	if clean && pk == 1 {
+		pk = 2
+	}
+	switch pk {
 	case 0:
 		params = jarr(tx, jstr("extra"), jnum("1"))
 		tags = append(tags, "sendTx-params:extra-elements")
@@ -718,6 +774,11 @@ func (g *gen) batch(thorough bool, n int, kind string) scenario {
 			ms[i] = g.anyMember(rl, thorough)
 		}
 	}
+	return g.assemble(rl, ms, kind, "batch")
+}
+
+func (g *gen) assemble(rl *rules, ms []member, kind, family string) scenario {
+	n := len(ms)
 	// intended completion order
 	order := make([]int, n)
 	for i := range order {
@@ -740,6 +801,9 @@ func (g *gen) batch(thorough bool, n int, kind string) scenario {
 	step := 12 * time.Millisecond
 	if n > 16 {
 		step = 6 * time.Millisecond
+	}
+	if family != "batch" {
+		step = 4 * time.Millisecond // histories / concurrent rounds: overlap matters, the exact completion order does not
 	}
 	for rank, idx := range order {
 		d := time.Duration(rank) * step
@@ -764,8 +828,68 @@ func (g *gen) batch(thorough bool, n int, kind string) scenario {
 		sp = 1
 	}
 	body := g.lead() + arr.Text(sp)
-	g.tag("batch", fmt.Sprintf("batch-size:%d", n), otag, "batch-kind:"+kind)
-	return scenario{family: "batch", body: []byte(body), tree: arr, order: order, rules: rl, n: n}
+	g.tag(family, fmt.Sprintf("batch-size:%d", n), otag, "batch-kind:"+kind)
+	return scenario{family: family, body: []byte(body), tree: arr, order: order, rules: rl, n: n}
+}
+
+// ---- histories over addresses the wallet lists but must refuse to sign for (round 3) ----
+
+func (g *gen) badSpec(b badAddr, style int) *fromSpec {
+	return &fromSpec{hex: b.hex(), style: style, tag: "from:listed-" + b.kind, clean: true}
+}
+
+func (g *gen) goodSpec(k int, style int) *fromSpec {
+	return &fromSpec{hex: hex.EncodeToString(g.keys[k%len(g.keys)].Address[:]), style: style, tag: "from:known", clean: true}
+}
+
+func (g *gen) historySingle(spec *fromSpec, family string) scenario {
+	rl := newRules()
+	s := g.single(rl, g.sendTxFrom(rl, false, spec))
+	s.family = family
+	g.tag(family)
+	return s
+}
+
+// chainProbe: a caller relays net_version / eth_chainId through the proxy and the backend answers with
+// a chain id OTHER than the one the process was started with; the proxy must relay the answer and keep
+// signing under its own id (the good sender that follows in the history is judged under it).
+func (g *gen) chainProbe(k int) scenario {
+	rl := newRules()
+	method := []string{"net_version", "eth_chainId", "net_version"}[k%3]
+	rep := []proxykit.Reply{result(`"31337"`), result(`"0x7a69"`), result(`424242`)}[k%3]
+	rl.byKey[frameKey(method, nil)] = rep
+	g.uniq++
+	id := jstr(fmt.Sprintf("chain-probe-%d", g.uniq))
+	var tree *J
+	if k%2 == 0 {
+		tree = jobj().set("jsonrpc", jstr("2.0")).set("id", id).set("method", jstr(method))
+	} else {
+		tree = jobj().set("jsonrpc", jstr("2.0")).set("id", id).set("method", jstr(method)).set("params", &J{K: 4, A: []*J{}})
+	}
+	g.tag("history-chain-probe")
+	return scenario{family: "history-chain-probe", body: []byte(tree.Text(0)), tree: tree, order: []int{0}, rules: rl, n: 1}
+}
+
+// historyBatch: good and refused senders interleaved in one batch, each refused address reps times
+// (different spellings), with pass-through and accounts members between them.
+func (g *gen) historyBatch(bads []badAddr, reps int) scenario {
+	rl := newRules()
+	var ms []member
+	ms = append(ms, g.sendTxFrom(rl, false, g.goodSpec(0, 0)))
+	for rep := 0; rep < reps; rep++ {
+		for i, b := range bads {
+			ms = append(ms, g.sendTxFrom(rl, false, g.badSpec(b, rep*(1+i))))
+			switch {
+			case (i+rep)%3 == 0:
+				ms = append(ms, g.passthrough(rl))
+			case i == 1:
+				ms = append(ms, g.sendTxFrom(rl, false, g.goodSpec(i+rep, i)))
+			}
+		}
+		ms = append(ms, g.accounts())
+	}
+	ms = append(ms, g.sendTxFrom(rl, false, g.goodSpec(len(g.keys)-1, 1)))
+	return g.assemble(rl, ms, "history", "history-batch")
 }
 
 // malformed top-level bodies
@@ -839,4 +963,79 @@ func (g *gen) fixedWitness(k int) scenario {
 	}
 	g.tag(fam)
 	return scenario{family: fam, body: []byte(tree.Text(0)), tree: tree, order: order, rules: rl, n: n}
+}
+
+// ---- concurrent clients (round 3): several POSTs in flight at once against the one process ----
+
+type concScenario struct {
+	sc   scenario
+	keys map[string]bool // byKey entries of the pass-through members of this request
+}
+
+// concurrentRound builds k requests (singles and small batches) sharing one backend script: good and
+// refused senders with supplied nonces (no count query), pass-through members with fresh keys,
+// accounts.  Every frame can be attributed to its request: pass-through by its key, a raw
+// transaction by the token the backend answers with (a function of the payload) that the proxy must
+// relay to the caller.
+func (g *gen) concurrentRound(k int) (*rules, []concScenario) {
+	rl := newRules()
+	rl.rawUnique = true
+	g.plainEnv = true
+	defer func() { g.plainEnv = false }()
+	var out []concScenario
+	freshPass := func() member {
+		for {
+			before := len(rl.byKey)
+			m := g.passthrough(rl)
+			if len(rl.byKey) == before+1 {
+				return m
+			}
+			// key collided with an earlier member's (common method, same params): its reply was overwritten; take another
+		}
+	}
+	for i := 0; i < k; i++ {
+		cs := concScenario{keys: map[string]bool{}}
+		var ms []member
+		add := func(m member) {
+			if m.delayKey != "" {
+				cs.keys[m.delayKey] = true
+			}
+			ms = append(ms, m)
+		}
+		good := func(j int) member {
+			sp := g.goodSpec(j, j%4)
+			sp.nonce = true
+			return g.sendTxFrom(rl, false, sp)
+		}
+		refused := func(j int) member {
+			sp := g.badSpec(g.bad[j%len(g.bad)], j%4)
+			sp.nonce = true
+			return g.sendTxFrom(rl, false, sp)
+		}
+		switch i % 4 {
+		case 0:
+			add(good(i))
+		case 1:
+			add(refused(i / 4))
+		case 2:
+			add(freshPass())
+		default:
+			add(good(i))
+			add(freshPass())
+			add(refused(i/4 + 1))
+			add(g.accounts())
+			add(good(i + 1))
+			add(freshPass())
+		}
+		if len(ms) == 1 {
+			cs.sc = g.single(rl, ms[0])
+			cs.sc.family = "concurrent-single"
+		} else {
+			cs.sc = g.assemble(rl, ms, "concurrent", "concurrent-batch")
+		}
+		g.tag(cs.sc.family)
+		out = append(out, cs)
+	}
+	// collisions between pass-through keys would make attribution ambiguous: freshPass excludes them
+	return rl, out
 }
